@@ -118,6 +118,10 @@ def gen_case(rng, gens=GENERATORS, max_total=6):
             slates = reorder(slates)
             props = reorder(props)
     case.update(slates=slates, props=props, cohesion=cohesion, intervals=intervals)
+    if rng.random() < 0.12:
+        # construct through BallotGenerator.from_params: intervals drawn from Dirichlet(alpha) via numpy's default_rng
+        # (OS entropy unless patched -- the seam that makes this repeatable)
+        case["from_params"] = {b: {s_: rng.choice([0.5, 1, 2, 10]) for s_ in blocs} for b in blocs}
     n = sum(sizes)
     if gen == "short_name_PlackettLuce":
         case["ballot_length"] = rng.randint(1, n)
@@ -164,6 +168,27 @@ def build(case):
         per = dict(case["per_candidate"])
         return lambda: g.generate_profile_with_dict(per)
     slates = {b: list(v) for b, v in case["slates"].items()}
+    if case.get("from_params"):
+        cls = {"name_PlackettLuce": bg.name_PlackettLuce, "short_name_PlackettLuce": bg.short_name_PlackettLuce, "name_BradleyTerry": bg.name_BradleyTerry,
+               "name_BradleyTerry_MCMC": bg.name_BradleyTerry, "slate_BradleyTerry": bg.slate_BradleyTerry, "slate_BradleyTerry_MCMC": bg.slate_BradleyTerry,
+               "AlternatingCrossover": bg.AlternatingCrossover, "CambridgeSampler": bg.CambridgeSampler, "name_Cumulative": bg.name_Cumulative,
+               "slate_PlackettLuce": bg.slate_PlackettLuce}[gen]
+        extra = {}
+        if gen == "short_name_PlackettLuce":
+            extra["ballot_length"] = case["ballot_length"]
+        if gen == "name_Cumulative":
+            extra["num_votes"] = case["num_votes"]
+        g = cls.from_params(slate_to_candidates=slates, bloc_voter_prop=dict(case["props"]),
+                            cohesion_parameters={b: dict(v) for b, v in case["cohesion"].items()},
+                            alphas={b: dict(v) for b, v in case["from_params"].items()}, **extra)
+        # the intervals the generator drew, for the oracle
+        case["_drawn_intervals"] = {b: {s_: {c: float(iv.interval.get(c, 0.0)) for c in slates[s_]} for s_, iv in d.items()} for b, d in g.pref_intervals_by_bloc.items()}
+        by_bloc = case["by_bloc"]
+        if gen.endswith("MCMC") and gen.startswith("name"):
+            return lambda: g.generate_profile_MCMC(N, by_bloc=by_bloc)
+        if gen.endswith("MCMC"):
+            return lambda: g.generate_profile(N, by_bloc=by_bloc, deterministic=False)
+        return lambda: g.generate_profile(N, by_bloc=by_bloc)
     kw = dict(
         slate_to_candidates=slates,
         bloc_voter_prop=dict(case["props"]),
@@ -199,7 +224,7 @@ def build(case):
 def combined_interval(case, bloc):
     """reference combined interval of a voter bloc: supports normalised per slate, scaled by cohesion"""
     out = {}
-    for s, iv in case["intervals"][bloc].items():
+    for s, iv in (case.get("_drawn_intervals") or case["intervals"])[bloc].items():
         tot = sum(iv.values())
         for c, v in iv.items():
             out[c] = (v / tot) * case["cohesion"][bloc][s]
@@ -209,4 +234,4 @@ def combined_interval(case, bloc):
 def zero_cands(case, bloc, combined=True):
     if combined:
         return sorted(c for c, v in combined_interval(case, bloc).items() if v == 0)
-    return sorted(c for s, iv in case["intervals"][bloc].items() for c, v in iv.items() if v == 0)
+    return sorted(c for s, iv in (case.get("_drawn_intervals") or case["intervals"])[bloc].items() for c, v in iv.items() if v == 0)
